@@ -170,6 +170,11 @@ def run_case(case):
     state = {}
 
     def driver():
+        wrapper = None
+        if via == "timed":
+            # the wrapper is made first and used later (and, below, more than once): its limit counts from each CALL
+            wproxy = conn._unbox((consts.LABEL_REMOTE_REF, ("builtins.function", 77, 78)))
+            wrapper = timed(wproxy, timeout)
         sched.time.sleep(case["t0"])
         token = "tok"
         if via == "sync":
@@ -188,7 +193,7 @@ def run_case(case):
         else:
             proxy = conn._unbox((consts.LABEL_REMOTE_REF, ("builtins.function", 77, 78)))
             if via == "timed":
-                ar = timed(proxy, timeout)(token)
+                ar = wrapper(token)
             else:
                 ap = async_(proxy)
                 ar = ap(token)
